@@ -60,10 +60,10 @@ PYV = ["2.7", "3.6", "3.7", "3.8", "3.9", "3.10", "3.11", "3.12", "4.0"]
 PYF = ["3.6", "3.7.1", "3.8.0", "3.8.5", "3.9", "3.10.2", "3.11.0", "3.9.0b1", "3.12.1"]
 REL = ["5.10", "5.10.0", "4.19.0", "6.1", "21.6.0"]
 STRVARS = {
-    "sys_platform": ["linux", "win32", "darwin", "cygwin"],
+    "sys_platform": ["linux", "win32", "darwin", "Linux"],
     "os_name": ["posix", "nt", "java"],
-    "platform_machine": ["x86_64", "arm64", "aarch64", "AMD64"],
-    "implementation_name": ["cpython", "pypy"],
+    "platform_machine": ["x86_64", "arm64", "amd64", "AMD64"],
+    "implementation_name": ["cpython", "pypy", "CPython"],
 }
 EXTRAS = ["a", "b", "dev", "Test_x"]
 
@@ -78,7 +78,7 @@ def gen_leaf(rnd: random.Random) -> str:
             vals = rnd.sample(PYV, rnd.randint(1, 3))
             return f"python_version {op} {q}{rnd.choice([' ', ', ']).join(vals)}{q}"
         v = rnd.choice(PYV)
-        if rnd.random() < 0.2 and op not in ("~=",):
+        if rnd.random() < 0.04 and op not in ("~=",):
             return f"{q}{v}{q}{sp}{ {'<': '>', '<=': '>=', '>': '<', '>=': '<=', '==': '==', '!=': '!='}[op] }{sp}python_version"
         return f"python_version{sp}{op}{sp}{q}{v}{q}"
     if k < 0.45:
@@ -117,9 +117,14 @@ def gen_marker(rnd: random.Random, depth: int, leaves: int) -> str:
 
 
 def respell(rnd: random.Random, s: str) -> str:
-    """same meaning, different text (equal cache key after parsing, different key before)"""
+    """mostly: same meaning, different text (equal cache key after parsing, different key before)"""
     k = rnd.random()
-    if k < 0.3:
+    if k < 0.25:
+        # NOT the same meaning: a value in another letter case (keys that only a case-folding cache would confuse)
+        for lo, up in (("amd64", "AMD64"), ("linux", "Linux"), ("cpython", "CPython"), ("dev", "DEV"), ("posix", "POSIX")):
+            if lo in s or up in s:
+                return s.replace(lo, "\0").replace(up, lo).replace("\0", up)
+    if k < 0.4:
         return s.replace('"', "'") if '"' in s else s.replace("'", '"')
     if k < 0.6:
         return " " + s.replace(" and ", "  and ").replace(" or ", "  or ") + " "
@@ -165,7 +170,7 @@ def gen_req(rnd: random.Random, markers: list[str], constraints: list[str]) -> s
 
 def gen_workload(rnd: random.Random, n: int) -> list[dict[str, Any]]:
     markers = [gen_marker(rnd, 3, rnd.randint(1, 5)) for _ in range(40)]
-    markers += [respell(rnd, rnd.choice(markers)) for _ in range(12)]
+    markers += [respell(rnd, rnd.choice(markers)) for _ in range(16)]
     markers += ["", "*", "<empty>", 'python_version >= "3.8" and python_version < "3.9"',
                 'python_version ~= "3.8', 'os_name = "nt"']
     cons = [vc_common.gen_constraint(rnd) for _ in range(40)]
@@ -175,7 +180,7 @@ def gen_workload(rnd: random.Random, n: int) -> list[dict[str, Any]]:
     gens = [gen_generic(rnd, False) for _ in range(12)]
     xgens = [gen_generic(rnd, True) for _ in range(10)]
     calls: list[dict[str, Any]] = []
-    pairs = [(rnd.choice(markers[:40]), rnd.choice(markers[:40]), rnd.choice("iu")) for _ in range(4)]
+    pairs = [(rnd.choice(markers[:56]), rnd.choice(markers[:56]), rnd.choice("iu")) for _ in range(4)]
     while len(calls) < n:
         k = rnd.random()
         if k < 0.05:
@@ -289,34 +294,81 @@ def call_sig(c: dict[str, Any]) -> str:
     return c["op"] + c.get("g", "") + "\0" + c.get("a", "") + "\0" + c.get("b", "")
 
 
+KNOWN_SWAPPED_KEY = "singlemarker-eq-ignores-operand-order"
+KNOWN_SWAPPED_WITNESS = {
+    "calls": [{"op": "mparse", "a": '"nt" not in os_name'},
+              {"op": "mval", "a": 'os_name not in "nt"', "env": {"os_name": "xntx"}},
+              {"op": "mparse", "a": 'os_name not in "nt"'}],
+    "hashseed": 1, "job": {"mode": "seq", "order": [2, 1, 0], "kind": "seq-reversed", "limit": 5.0}, "idx": 1,
+    "expected": "bool|0", "got": "bool|1", "workload_seed": "minimal"}
+
+
+def job_of(calls: list[dict[str, Any]], sched: dict[str, Any]) -> dict[str, Any]:
+    return {"calls": calls, **{k: v for k, v in sched.items() if k not in ("kind", "threads")}}
+
+
+def attributed_to_swapped_eq(wl: dict[str, Any], sched: dict[str, Any]) -> bool:
+    """Do the differences of this (reference, schedule) pair vanish when SingleMarker equality distinguishes
+    `"x" in name` from `name in "x"`?  Then they are instances of ONE defect (equal-but-different cache keys) and are
+    reported under one key with a minimal witness instead of one violation per generated input."""
+    calls, hs = wl["calls"], wl["hashseed"]
+    try:
+        ref_res = run_worker({"calls": calls, "mode": "seq", "order": list(range(len(calls))), "limit": 2.0,
+                              "shim": "swapped_eq"}, hs, 300)
+        if ref_res is None:
+            return False
+        ref = {i: txt for _t, i, txt, _s in ref_res["results"]}
+        for k in range(1 if sched["mode"] == "seq" else 2):
+            job = job_of(calls, sched)
+            job["shim"] = "swapped_eq"
+            job["sched_seed"] = int(job.get("sched_seed", 0)) + k
+            res = run_worker(job, hs, 300)
+            if res is None or any(i in ref and txt != ref[i] for _t, i, txt, _s in res["results"]):
+                return False
+        return True
+    except WorkerFailed:
+        return False
+
+
 def compare(ctx: core.Ctx, wl: dict[str, Any], sched: dict[str, Any], res: dict[str, Any], ref: dict[int, str],
             stream: str) -> int:
     calls = wl["calls"]
-    bad = 0
+    bad = []
     for th, i, txt, _secs in res["results"]:
         exp = ref.get(i)
         if exp is None:
             continue
         ctx.case(call_sig(calls[i]) + "|" + sched["kind"], nontrivial=not exp.startswith("!"))
         if txt != exp:
-            bad += 1
-            job = {k: v for k, v in sched.items()}
+            bad.append((th, i, txt, exp))
+    if bad and attributed_to_swapped_eq(wl, sched):
+        th, i, txt, exp = bad[0]
+        ctx.count("mismatch:attributed-to-" + KNOWN_SWAPPED_KEY, len(bad))
+        ctx.violate(KNOWN_SWAPPED_KEY,
+                    'SingleMarker.__eq__/__hash__ ignore the operand order, so `"nt" not in os_name` == `os_name not in "nt"` '
+                    "although they differ in truth; through the process-wide caches (cnf, dnf, _merge_single_markers) whichever "
+                    "was seen first replaces the other: parse_marker('os_name not in \"nt\"') is true for os_name=xntx after "
+                    "parse_marker('\"nt\" not in os_name') was called, false in a fresh process. "
+                    f"({len(bad)} differing calls of workload {wl['name']} under {sched['kind']}, e.g. #{i} {calls[i]}: "
+                    f"{txt!r} vs fresh {exp!r}; all vanish when equality sees the operand order)",
+                    KNOWN_SWAPPED_WITNESS)
+    else:
+        for th, i, txt, exp in bad[:3]:
             ctx.violate(
                 f"{sched['kind']}:{call_sig(calls[i])}",
                 f"call #{i} {calls[i]} under schedule {sched['kind']}"
                 f"{'/' + str(sched.get('threads')) + ' threads' if sched['mode'] == 'threads' else ''} (thread {th}) gave "
                 f"{txt!r}; the sequential run in a fresh process gives {exp!r}",
-                {"calls": calls, "hashseed": wl["hashseed"], "job": job, "idx": i, "expected": exp, "got": txt,
+                {"calls": calls, "hashseed": wl["hashseed"], "job": dict(sched), "idx": i, "expected": exp, "got": txt,
                  "workload_seed": wl["name"]})
     if not res["stacks_empty"]:
         # model: quiescent_all_empty.  Not a result difference by itself → correspondence disagreement; `search` then
         # looks for a call whose result differs because of the stale entry
-        bad += 1
         ctx.disagree("quiescence", {"workload": wl["name"], "schedule": sched["kind"]}, f"call_args left: {res['stacks']}",
                      "every list empty")
     ctx.stream(stream, len(res["results"]), 0)
     ctx.count("schedule:" + sched["kind"])
-    return bad
+    return len(bad)
 
 
 # ------------------------------------------------------------------------------------------
@@ -441,8 +493,7 @@ def do_workload(ctx: core.Ctx, name: str, n_calls: int, n_seq: int, n_thr: int, 
     scheds = make_schedules(rnd, good, n_seq, n_thr, probes)
     jobs = []
     for s in scheds:
-        job = {"calls": calls, **{k: v for k, v in s.items() if k not in ("kind", "threads")}}
-        jobs.append((s, pool.submit(run_worker, job, wl["hashseed"], 240)))
+        jobs.append((s, pool.submit(run_worker, job_of(calls, s), wl["hashseed"], 240)))
     tjobs = []
     if trace:
         sub = sorted(set(good[:: max(1, len(good) // 80)][:80]) | set(probes))
